@@ -268,6 +268,8 @@ def empty_pkgs(x, p):
     use_game_loop) - is still defined in the package table, once, because
     the loader calls it."""
     body = x.choice('body', [b'', b'\n\n', b'-- only a comment\n',
+                             b'--[[ c ]] function _update() end\n',
+                             b';function _draw() end function _init() end',
                              b'-- no final line end',
                              b'function _update() end\n',
                              b'function _draw()\nend',
@@ -305,9 +307,10 @@ def empty_pkgs(x, p):
             keys == [b'p1'])
     body_sig = sig_tokens(body)
     if not ugl:
-        body_sig = []           # every body here is game-loop functions only
-        if body.startswith(b'function') is False:
-            body_sig = sig_tokens(body)
+        # every body here is game-loop functions only (plus comments, a
+        # stray semicolon)
+        body_sig = [t for t in sig_tokens(body) if t[1] == b';'] \
+            if b'function' in body else sig_tokens(body)
     exp = b'package={loaded={},_c={}}\npackage._c["p1"]=function()\n'
     x.check('the built code is the package table, the package (minus its '
             'game loop functions), the loader and the main program',
